@@ -453,6 +453,37 @@ int LLVMFuzzerTestOneInput(const uint8_t *data, size_t size)
 
 	fz_count(FZC_NONTRIVIAL);
 	FZ_CLASS("loaded_ok");
+
+	/*
+	 * 0. NPD files carry their own format list and precisions (0..1000): save
+	 * once exactly as loaded.  The saver may refuse or fail (a listed parameter
+	 * may not be computable from the data), but what it writes must load again
+	 * with the same shape; values are not compared at the file's precision.
+	 */
+	if (ext == 5) {
+	    text = save_text(a, "fz.npd", &len, &rc);
+	    if (rc == 0) {
+		fz_errlog_reset(&elc);
+		c = vnadata_alloc(fz_errfn, &elc);
+		if (c == NULL)
+		    abort();
+		rc = load_bytes(c, (const uint8_t *)text, len, "fz.npd", &err);
+		if (rc != 0 && err != ENOMEM) {
+		    fz_violation("C09.vnadata_resaved_not_loadable",
+			    "NPD text written with the format '%s' and precisions %d/%d taken from the file does not load: %s",
+			    vnadata_get_format(a) ? vnadata_get_format(a) : "(null)", vnadata_get_fprecision(a), vnadata_get_dprecision(a),
+			    elc.el_last);
+		}
+		if (rc == 0) {
+		    FZ_CHECK(vnadata_get_frequencies(c) == vnadata_get_frequencies(a) && obj_ports(c) == obj_ports(a),
+			    "C09.vnadata_mismatch_dims", "saved as loaded and reloaded: %d ports x %d frequencies became %d x %d",
+			    obj_ports(a), vnadata_get_frequencies(a), obj_ports(c), vnadata_get_frequencies(c));
+		}
+		vnadata_free(c);
+		free(text);
+	    }
+	    ela.el_errors = 0;	/* refusals are reported through the callback: expected */
+	}
 	snprintf(format, sizeof(format), "%sri", vnadata_get_type_name(vnadata_get_type(a)));
 	FZ_CHECK(vnadata_set_format(a, format) == 0, "C09.vnadata_not_savable", "vnadata_set_format(%s) failed: %s", format, ela.el_last);
 	FZ_CHECK(vnadata_set_fprecision(a, VNADATA_MAX_PRECISION) == 0 && vnadata_set_dprecision(a, VNADATA_MAX_PRECISION) == 0,
